@@ -58,6 +58,7 @@ def build(rnd, k):
     for _ in range(rnd.randint(0, 4)):
         m.add_type([rnd.choice(TYPES) for _ in range(rnd.randint(0, 3))], [rnd.choice(TYPES)] if rnd.random() < 0.7 else [])
     sigs = []  # funcidx -> (params, result)
+    imp_seen = []
     for i in range(n_imp):
         ps = [rnd.choice(TYPES) for _ in range(rnd.randint(0, 6))]
         res = rnd.choice([I32, I64, F32, F64, None])
@@ -65,6 +66,16 @@ def build(rnd, k):
         # escape character itself, text that LOOKS like an escape next to the character it would stand for, punctuation, UTF-8
         imod = rnd.choice(['env', 'env', 'a.b', 'h\u00f4te', 'X', 'e_', 'wasi:io/x@0.2'])
         inm = rnd.choice(['host%d', 'hostX%d', 'getX2Ev%d', 'get.v%d', 'X%d', 'h__%d', '_%d_', 'h-%d', 'h %d', '\u8a08%d', 'h\u00e9%d', 'xX58%d', 'HOST%d', 'h$%d', '%d']) % i
+        if imp_seen and rnd.random() < 0.3:
+            # the SAME field name (and, half of the time, the same signature) imported from a DIFFERENT module: two distinct host
+            # functions <modA>__<name> and <modB>__<name>
+            pm_, pn_, pps_, pres_ = rnd.choice(imp_seen)
+            others = [x for x in ['env', 'a.b', 'h\u00f4te', 'X', 'e_', 'math', 'env2'] if x not in [q[0] for q in imp_seen if q[1] == pn_]]
+            if others:
+                imod, inm = rnd.choice(others), pn_
+                if rnd.random() < 0.5:
+                    ps, res = list(pps_), pres_
+        imp_seen.append((imod, inm, tuple(ps), res))
         m.import_func(imod, inm, ps, [res] if res else [])
         sigs.append((tuple(ps), res))
     goff = None
